@@ -1,6 +1,7 @@
 """C09/C10: sign / shape analysis of the debt formula. Metrics::allocation_debt, finish_cycle,
 adjust_debt and the mark_gc_* helpers are interpreted from MIR with every MetricsInner field an opaque
 symbol; float arithmetic builds uninterpreted terms, comparisons fork on the ordering domain."""
+import itertools
 from gcv import interp
 from gcv.interp import Interp, State, TOP, UNIT, adt, ref, I
 
@@ -177,6 +178,137 @@ def debt_outcomes(prog):
     st = mk_state(prog)
     outs = ip.run(k, [ref(("m",), ())], st)
     return [o for o in outs if o.kind == "return"], outs
+
+
+# ------------------------------------------------------------------------------------------------ debt predicates
+def _atom(a, b, rel):
+    """Canonical atom of the ordering domain: `x - y ? 0` is `x ? y`; the textually smaller term goes first."""
+    ZERO = (("f", 0.0), ("i", 0))
+    flip = str.maketrans("<>", "><")
+    if b in ZERO and a[0] == "app" and a[1] == "Sub" and len(a[2]) == 2:
+        a, b = a[2]
+    elif a in ZERO and b[0] == "app" and b[1] == "Sub" and len(b[2]) == 2:
+        a, b, rel = b[2][0], b[2][1], frozenset("".join(rel).translate(flip))
+    ka, kb = fmt(a), fmt(b)
+    if kb < ka:
+        ka, kb, rel = kb, ka, frozenset("".join(rel).translate(flip))
+    return (ka, kb), frozenset(rel)
+
+
+def _conj(cons, extra=None):
+    c = {}
+    for (a, b), rel in list(cons.items()) + ([extra] if extra else []):
+        k, r = _atom(a, b, rel)
+        c[k] = c.get(k, frozenset("<=>")) & r
+    return None if any(not r for r in c.values()) else c
+
+
+def _positive_dnf(rets, of_debt):
+    """The condition under which a function's result is positive (a debt) / true (a predicate), as a list of
+    conjunctions of ordering atoms; None when a result has a form the comparison does not understand."""
+    ZERO = ("f", 0.0)
+    SAT = {"Eq": "=", "Ne": "<>", "Lt": "<", "Le": "<=", "Gt": ">", "Ge": ">="}
+    dnf = []
+    for o in rets:
+        v = o.value
+        if of_debt:
+            if v == ZERO:
+                continue
+            if v[0] == "app" and v[1] == "max" and ZERO in v[2] and len(v[2]) == 2:
+                x = [a for a in v[2] if a != ZERO] or [ZERO]
+                c = _conj(o.st.cons, ((x[0], ZERO), frozenset(">")))
+            else:
+                return None
+        else:
+            if v == I(0):
+                continue
+            if v == I(1):
+                c = _conj(o.st.cons)
+            elif v[0] == "cmp" and v[1] in SAT:
+                c = _conj(o.st.cons, ((v[2], v[3]), frozenset(SAT[v[1]])))
+            else:
+                return None
+        if c is not None:
+            dnf.append(c)
+    return dnf
+
+
+def _dnf_equal(d1, d2, negate2=False):
+    atoms = sorted({k for d in (d1, d2) for c in d for k in c})
+    if len(atoms) > 9:
+        return False
+    for combo in itertools.product("<=>", repeat=len(atoms)):
+        a = dict(zip(atoms, combo))
+        v1 = any(all(a[k] in r for k, r in c.items()) for c in d1)
+        v2 = any(all(a[k] in r for k, r in c.items()) for c in d2)
+        if v1 != (v2 != negate2):
+            return False
+    return True
+
+
+def debt_predicates(prog):
+    """{function: polarity}: the methods of Metrics taking only &self and returning bool that are, on the ordering
+    domain, the same question as `allocation_debt() > 0.0` (polarity True) or its negation (False). Decided by
+    interpreting both on opaque counters and comparing the conditions of a positive answer as propositional
+    formulas over the comparisons made (x.max(0) > 0 iff x > 0; x - y > 0 iff x > y). The collector model treats
+    such a predicate as a read of the debt."""
+    cached = getattr(prog, "_debt_predicates", None)
+    if cached is not None:
+        return cached
+    out = {}
+    prog._debt_predicates = out
+    base = "metrics::Metrics::allocation_debt"
+    if base not in prog.seed_n:
+        return out
+    cands = []
+    for n, ks in prog.seed_n.items():
+        if not n.startswith("metrics::Metrics::") or "{closure" in n or n == base or not ks:
+            continue
+        b = prog.bodies[ks[0]]
+        if b.get("argc") == 1 and prog.ty(b["locals"][0]).get("k") == "bool" and prog.ty(b["locals"][1]).get("k") == "ref":
+            cands.append(n)
+    if not cands:
+        return out
+    try:
+        rets, allouts = debt_outcomes(prog)
+        want = _positive_dnf(rets, True)
+    except (interp.Unmodelled, interp.InterpError):
+        return out
+    if want is None or any(o.kind != "return" for o in allouts):
+        return out
+    for n in cands:
+        try:
+            ip = interp_for(prog)
+            outs = ip.run(prog.seed_n[n][0], [ref(("m",), ())], mk_state(prog))
+        except (interp.Unmodelled, interp.InterpError):
+            continue
+        if any(o.kind != "return" for o in outs):
+            continue
+        got = _positive_dnf(outs, False)
+        if got is None:
+            continue
+        if _dnf_equal(want, got):
+            out[n] = True
+        elif _dnf_equal(want, got, negate2=True):
+            out[n] = False
+    return out
+
+
+def check_predicates(chk, prog):
+    """Every bool-returning question the collector puts to Metrics between two steps must be the debt question: a
+    predicate that answers differently from `allocation_debt() > 0` on some counter values makes collect_debt stop
+    early (debt left unpaid) or run on (work not proportional)."""
+    preds = debt_predicates(prog)
+    prog.edges()
+    asked = sorted({e.callee for e in prog.edges() if e.callee and e.caller and e.callee.startswith("metrics::Metrics::") and e.caller.startswith("context::")
+                    and e.callee in prog.seed_n and prog.bodies[prog.seed_n[e.callee][0]].get("argc") == 1
+                    and prog.ty(prog.bodies[prog.seed_n[e.callee][0]]["locals"][0]).get("k") == "bool"})
+    for fn in asked:
+        chk.inst("debt-predicate-equivalence", fn, fn in preds,
+                 detail="the collector asks `%s` between steps, and it is not the same question as allocation_debt() > 0 on "
+                        "the ordering domain (the conditions of a positive answer differ)" % fn,
+                 sample={"polarity": preds.get(fn)})
+    chk.extra["debt_predicates"] = {k: v for k, v in preds.items()}
 
 
 def check_formula(chk, prog, for_c10=False):
